@@ -918,6 +918,18 @@ class Engine:
         if isinstance(s, ast.AugAssign):
             cur = self.eval(s.target, env)
             v = self.binop(s.op, cur, self.eval(s.value, env), s)
+            # python lists implement += / *= IN PLACE: every other name of the same list (e.g. the caller's argument) sees it
+            if isinstance(s.op, (ast.Add, ast.Mult)):
+                if isinstance(cur, VArr) and isinstance(v, VArr):
+                    cur.length, cur.arr = v.length, v.arr
+                    return
+                if isinstance(cur, VTuple) and cur.kind == 'list':
+                    if isinstance(v, VTuple):
+                        cur.items[:] = v.items
+                        return
+                    raise Unsupported('in-place extension of a concrete list by a symbolic one (line {})'.format(s.lineno))
+                if isinstance(cur, (VSeq, VMList, VArr2, VTerms)) and not isinstance(cur, (int, str)):
+                    raise Unsupported('in-place += on an abstract list (line {})'.format(s.lineno))
             self.assign(s.target, v, env)
             return
         if isinstance(s, ast.If):
@@ -1598,6 +1610,28 @@ class Engine:
             return VFmt(A.template + Bv.template, A.args + Bv.args)
         if isinstance(a, str) and isinstance(b, str) and isinstance(op, ast.Add):
             return a + b
+        if isinstance(op, ast.Add) and isinstance(b, VArr) and isinstance(a, (VArr, VTuple)) and b.arr.sort().range() == z3.IntSort() \
+                and (isinstance(a, VArr) or (a.kind == 'list' and all(isinstance(x, (int, bool)) or (is_z3(x) and (z3.is_int(x) or z3.is_bool(x))) for x in a.items))):
+            # list + list with an int array on the right: a fresh list (bools are kept as 0/1)
+            def as01(x):
+                if isinstance(x, bool):
+                    return z3.IntVal(int(x))
+                if is_z3(x) and z3.is_bool(x):
+                    return z3.If(x, z3.IntVal(1), z3.IntVal(0))
+                return toz(x)
+            if isinstance(a, VTuple):
+                la = z3.IntVal(len(a.items))
+                aa = z3.K(z3.IntSort(), z3.IntVal(0))
+                for ix, x in enumerate(a.items):
+                    aa = z3.Store(aa, ix, as01(x))
+            else:
+                la, aa = toz(a.length), a.arr
+                if aa.sort().range() != z3.IntSort():
+                    raise Unsupported('concatenation of non-int arrays')
+            t = z3.Int('cat!j')
+            return VArr(z3.simplify(la + toz(b.length)), z3.Lambda([t], z3.If(t < la, z3.Select(aa, t), z3.Select(b.arr, t - la))))
+        if isinstance(a, VTuple) and isinstance(op, ast.Mult) and is_z3(b) and len(a.items) == 1 and isinstance(a.items[0], bool):
+            return VArr(z3.simplify(zmax(toz(b), z3.IntVal(0))), z3.K(z3.IntSort(), z3.IntVal(int(a.items[0]))))
         if isinstance(a, VTuple) and isinstance(op, ast.Mult) and is_z3(b) and len(a.items) == 1 \
                 and (a.items[0] is None or isinstance(a.items[0], int) or is_z3(a.items[0])):
             n = zmax(toz(b), z3.IntVal(0))
@@ -1999,6 +2033,23 @@ class Engine:
                 if table.arr.sort().range() == specs.CSeq:
                     return VDom(table.arr, toz(table.length), it.term)
                 return VSeq(specs.imapsub(it.term, table.arr, toz(table.length)))
+        if isinstance(it, VArr) and isinstance(g.target, ast.Name) and it.arr.sort().range() == z3.IntSort():
+            t = self.fresh('pos_' + g.target.id)
+            e2 = dict(env)
+            e2[g.target.id] = z3.Select(it.arr, t)
+            saved = len(self.pc)
+            self.pc.append(z3.And(t >= 0, t < toz(it.length)))
+            try:
+                body = self.eval(e.elt, e2)
+            finally:
+                del self.pc[saved:]
+            if isinstance(body, bool):
+                body = z3.IntVal(int(body))
+            if is_z3(body) and z3.is_bool(body):
+                body = z3.If(body, z3.IntVal(1), z3.IntVal(0))       # bools in arrays are 0/1
+            if is_z3(body) and z3.is_int(body):
+                return VArr(it.length, z3.Lambda([t], body))
+            raise Unsupported('comprehension over an int list with a non-int element')
         if isinstance(it, VStrs) and isinstance(g.target, ast.Name):
             # [f(tok) for tok in tokens]: one value per token; f may be demonic (int()) and may raise for some token
             t = self.fresh('tok_' + g.target.id)
@@ -2049,6 +2100,9 @@ class Engine:
                     return VSeq(specs.ishift(it.term, d1))
                 if not _mentions(d2, t):
                     return VSeq(specs.ineg(specs.ishift(it.term, z3.simplify(-d2))))
+                # any other int-valued element: the list as (length, lambda array); reads of the lambda are beta-reduced
+                tc = z3.Int('lam!j')          # canonical bound name: the same list written in a contract is the same term
+                return VArr(specs.ilen(it.term), z3.Lambda([tc], z3.substitute(body, (t, tc))))
             raise Unsupported('comprehension over an abstract list with a non-affine element (line {})'.format(e.lineno))
         if isinstance(it, VSeq) and it.sortname == 'ISeq' and isinstance(g.target, ast.Name):
             # recognised maps over an abstract literal list
@@ -2331,7 +2385,9 @@ class Engine:
             if ty == 'iseq' and isinstance(env.get(pn), VTuple):
                 env[pn] = VSeq(_term(env[pn]))
             if ty == 'iseq' and isinstance(env.get(pn), VArr):
-                raise Unsupported('int array passed where an abstract literal list is expected')
+                if env[pn].arr.sort().range() != z3.IntSort():
+                    raise Unsupported('non-int array passed where an abstract literal list is expected')
+                env[pn] = VSeq(specs.iofarr(env[pn].arr, toz(env[pn].length)))      # the list as an abstract sequence
         label = '{}'.format(key[1])
         # universally quantified ghost parameters: the callee's post holds for every value, so it is
         # instantiated at the caller's ghost of the same type (else at a fresh constant)
@@ -2724,6 +2780,19 @@ def sf_lam2(eng, node, env):
 sf_lam2.raw = True
 
 
+def sf_lam1(eng, node, env):
+    """lam1(lambda j: expr) -> an int array (length unknown: to be used with iofarr(arr, n))"""
+    lam = node.args[0]
+    j = z3.Int('lam!j')
+    e2 = dict(env)
+    e2[lam.args.args[0].arg] = j
+    body = eng.eval(lam.body, e2)
+    return VArr(z3.IntVal(0), z3.Lambda([j], toz(body)))
+
+
+sf_lam1.raw = True
+
+
 def sf_implies(eng, node, env):
     """implies(a, b): b is not evaluated when a is concretely false (so b may be ill-typed there)"""
     a = as_bool(eng.eval(node.args[0], env))
@@ -2814,6 +2883,8 @@ def sf_trace(eng, node, v):
 
 
 SPEC_FUNCS = {
+    'lam1': sf_lam1,
+    'nbrs': _wrap(specs.nbrs), 'evar': _wrap(specs.evar), 'iofarr': lambda eng, node, A, n: VSeq(specs.iofarr(as_arr(A).arr, toz(n))),
     'liftcls': _wrap(specs.liftcls), 'liftsem': _wrap(specs.liftsem), 'yblock': _wrap(specs.yblock),
     'implchain': _wrap(specs.implchain),
     'ev': sf_ev, 'trace': sf_trace, 'tid': lambda eng, node, t: z3.IntVal(template_id(normalize_template(t, 0, [])[0])),
@@ -3008,6 +3079,18 @@ def b_str(eng, node, v=None):
     return '<str>'
 
 
+def b_bool(eng, node, v=False):
+    if isinstance(v, bool):
+        return v
+    if isinstance(v, int):
+        return v != 0
+    if is_z3(v) and z3.is_bool(v):
+        return v
+    if is_z3(v) and z3.is_int(v):
+        return v != 0
+    raise Unsupported('bool() of {!r}'.format(v))
+
+
 def b_isgenerator(eng, node, v):
     # declared-type decision (DESIGN 2.1): abstract sequences and concrete lists are not generators
     return False
@@ -3031,6 +3114,11 @@ def b_zip(eng, node, *args):
     if all(isinstance(a, VTuple) for a in args):
         n = min(len(a.items) for a in args)
         return VTuple([VTuple([a.items[i] for a in args]) for i in range(n)], 'list')
+    if len(args) == 2 and isinstance(args[0], VRange) and args[0].step == 1 and isinstance(args[1], VArr):
+        r, arr = args
+        t = z3.Int('zip!j')
+        n = zmin(zmax(toz(r.hi) - toz(r.lo), z3.IntVal(0)), toz(arr.length))
+        return VPairs(z3.simplify(n), z3.Lambda([t], toz(r.lo) + t), arr.arr)
     raise Unsupported('zip of symbolic sequences')
 
 
@@ -3074,6 +3162,8 @@ def b_sum(eng, node, a):
         for x in a.items:
             r = r + x
         return r
+    if isinstance(a, VArr):
+        return specs.arrsum(a.arr, toz(a.length))
     raise Unsupported('sum of symbolic sequence')
 
 
@@ -3096,7 +3186,7 @@ def _empty_pairset():
     return z3.Lambda([z3.Int('ps!x'), z3.Int('ps!y')], z3.BoolVal(False))
 
 
-BUILTINS = {'str': b_str, 'set': b_set, 'all': b_allany_raw, 'any': b_allany_raw, 'sorted': lambda eng, node, seq, key=None: lib_sorted(eng, node, seq, key), 'len': b_len, 'abs': b_abs, 'min': b_minmax('min'), 'max': b_minmax('max'), 'range': b_range,
+BUILTINS = {'str': b_str, 'bool': b_bool, 'set': b_set, 'all': b_allany_raw, 'any': b_allany_raw, 'sorted': lambda eng, node, seq, key=None: lib_sorted(eng, node, seq, key), 'len': b_len, 'abs': b_abs, 'min': b_minmax('min'), 'max': b_minmax('max'), 'range': b_range,
             'list': b_list, 'tuple': b_list, 'isinstance': b_isinstance, 'int': b_int, 'zip': b_zip,
             'enumerate': b_enumerate, 'sum': b_sum_raw, 'next': b_next, 'iter': lambda eng, node, v: v}
 
